@@ -62,8 +62,9 @@ static void* al(size_t n) {
   return p;
 }
 
-#define NOPS 22
-static const int op_class[NOPS] = {0, 0, 0, 0, 0, 0, 0, 0, 0, 0, 0, 0, 0, 0, 1, 1, 1, 1, 1, 1, 1, 1};  // 0: module/table, 1: simple
+#define NOPS 28
+static const int op_class[NOPS] = {0, 0, 0, 0, 0, 0, 0, 0, 0, 0, 0, 0, 0, 0, 1, 1, 1, 1, 1, 1, 1, 1,   // 0: module/table, 1: simple
+                                   0, 0, 0, 0, 0, 0};  // 22..27: a thread builds its OWN object, uses it and deletes it
 
 // runs operation `op` on private data derived from (gseed, op) only; returns the hash of everything it produced
 static uint64_t run_op(int op) {
@@ -288,6 +289,63 @@ static uint64_t run_op(int op) {
       reim_fftvec_mul_simple(m, r, v, w); h = fnv(h, r, 16 * m);
       reim_fftvec_addmul_simple(m, r, v, w); h = fnv(h, r, 16 * m);
       free(x); free(x32); free(v); free(w); free(r);
+      break;
+    }
+    case 22:
+    case 23:
+    case 24: {  // own NTT120 module of dimension 16 / 128 / 1024: constructors running side by side in several threads
+      const uint64_t n = (op == 22) ? 16 : (op == 23) ? 128 : 1024;
+      MODULE* m = new_module_info(n, NTT120);
+      int64_t* a = al(8 * 2 * n);
+      VEC_ZNX_DFT* d = al(32 * 2 * n);   // (the bytes_of_* entries of an NTT120 module are not populated)
+      VEC_ZNX_BIG* g = al(16 * 2 * n);
+      uint8_t* tmp = al(vec_znx_idft_tmp_bytes(m));
+      fill_small(a, 2 * n, &s, 60);
+      vec_znx_dft(m, d, 2, a, 2, n); h = fnv(h, d, 32 * 2 * n);
+      vec_znx_idft(m, g, 2, d, 2, tmp); h = fnv(h, g, 16 * 2 * n);
+      free(a); free(d); free(g); free(tmp);
+      delete_module_info(m);
+      break;
+    }
+    case 25: {  // own FFT64 module
+      const uint64_t n = 64;
+      MODULE* m = new_module_info(n, FFT64);
+      int64_t *a = al(8 * n), *b = al(8 * n), *r = al(8 * n);
+      uint8_t* tmp = al(znx_small_single_product_tmp_bytes(m));
+      fill_small(a, n, &s, 14); fill_small(b, n, &s, 14);
+      znx_small_single_product(m, r, a, b, tmp); h = fnv(h, r, 8 * n);
+      free(a); free(b); free(r); free(tmp);
+      delete_module_info(m);
+      break;
+    }
+    case 26: {  // own FFT tables, both layouts and directions, two dimensions
+      for (int k = 0; k < 2; ++k) {
+        const uint32_t m = k ? 32 : 256;
+        double* v = al(16 * m);
+        fill_dbl(v, 2 * m, &s);
+        REIM_FFT_PRECOMP* f = new_reim_fft_precomp(m, 0);
+        REIM_IFFT_PRECOMP* fi = new_reim_ifft_precomp(m, 0);
+        CPLX_FFT_PRECOMP* c = new_cplx_fft_precomp(m, 0);
+        CPLX_IFFT_PRECOMP* ci = new_cplx_ifft_precomp(m, 0);
+        reim_fft(f, v); h = fnv(h, v, 16 * m);
+        reim_ifft(fi, v); h = fnv(h, v, 16 * m);
+        cplx_fft(c, v); h = fnv(h, v, 16 * m);
+        cplx_ifft(ci, v); h = fnv(h, v, 16 * m);
+        free(f); free(fi); free(c); free(ci); free(v);
+      }
+      break;
+    }
+    case 27: {  // own q120 NTT tables
+      const uint64_t n = 256;
+      q120_ntt_precomp* pn = q120_new_ntt_bb_precomp(n);
+      q120_ntt_precomp* pi = q120_new_intt_bb_precomp(n);
+      uint64_t* v = al(32 * n);
+      for (uint64_t i = 0; i < 4 * n; ++i) v[i] = splitmix(&s);
+      q120_ntt_bb_avx2(pn, (q120b*)v); h = fnv(h, v, 32 * n);
+      q120_intt_bb_avx2(pi, (q120b*)v); h = fnv(h, v, 32 * n);
+      free(v);
+      q120_del_ntt_bb_precomp(pn);
+      q120_del_intt_bb_precomp(pi);
       break;
     }
     default:
